@@ -18,6 +18,7 @@ hostpart separator; the functions here enforce this constraint.
 
 """
 
+import posixpath
 import urllib.parse
 import urllib.request
 
@@ -47,5 +48,20 @@ def urldefrag(url):
 
 
 def urljoin(base, relurl):
+    if base and base.startswith("package:") and base.count(":") >= 2:
+        # package:NAME:PATH is opaque to urllib; a relative reference
+        # names a resource of the same package, beside the referring one
+        parts = urllib.parse.urlsplit(relurl)
+        if not parts.scheme and not parts.netloc \
+                and parts.path and not parts.path.startswith("/"):
+            prefix, path = base.rsplit(":", 1)
+            path = posixpath.normpath(
+                posixpath.join(posixpath.dirname(path), parts.path))
+            url = prefix + ":" + path
+            if parts.query:
+                url += "?" + parts.query
+            if parts.fragment:
+                url += "#" + parts.fragment
+            return url
     url = urllib.request.urljoin(base, relurl)
     return urlnormalize(url)
